@@ -89,9 +89,14 @@ example : callerResult Skeleton.current idCodec none 2 true 3
 example : callerResult Skeleton.current idCodec none 1 false 9
     (mkResponse Skeleton.current idCodec "id" (.oneVal "v")) = some (.panic "unmarshal") := rfl
 
+/-- The wire model encodes THE value the handler returned. `utils.Call` hands back exactly what the function returned — `out = fn.Call(in)` is the only write to its result list (checked against the regenerated skeleton; `utils/call.go` is not among this property's anchors, yet every handler's and every closure's results pass through it). (A nil slice or map replaced by an empty one there arrives as `[]` / `{}` instead of `null`: not the handler's value after one round-trip.) -/
+theorem C09_results_pass_through_utils_call :
+    Skeleton.current.ucResultsUntouched = true := by decide
+
 end Panrpc.Wire
 
 #print axioms Panrpc.Wire.C09_args_in_order
 #print axioms Panrpc.Wire.C09_args_pointwise
 #print axioms Panrpc.Wire.C09_ctx_not_transmitted
 #print axioms Panrpc.Wire.C09_result_roundtrip
+#print axioms Panrpc.Wire.C09_results_pass_through_utils_call
